@@ -361,6 +361,7 @@ func runC03(c *run.Ctx) {
 	families = append(families, fullStackCallCases()...)
 	families = append(families, signedZeroCases()...)
 	families = append(families, nearLiteralCases()...)
+	families = append(families, sharedOperandCases()...)
 	for i, pc := range families {
 		if !c.Mine(i) {
 			continue
